@@ -2146,7 +2146,11 @@ class StridedInterval:
             return self.copy()
 
         # the interval can be represented in tok bits
-        if (self.lower_bound & mask) == self.lower_bound and (self.upper_bound & mask) == self.upper_bound:
+        if (
+            self.lower_bound <= self.upper_bound
+            and (self.lower_bound & mask) == self.lower_bound
+            and (self.upper_bound & mask) == self.upper_bound
+        ):
             return StridedInterval(
                 bits=tok,
                 stride=self.stride,
@@ -2164,7 +2168,11 @@ class StridedInterval:
                 bits=tok, stride=self.stride, lower_bound=lower, upper_bound=upper, uninitialized=self.uninitialized
             )
 
-        if (self.upper_bound & mask == self.lower_bound & mask) and ((self.upper_bound - self.lower_bound) & mask == 0):
+        if (
+            (self.upper_bound & mask == self.lower_bound & mask)
+            and ((self.upper_bound - self.lower_bound) & mask == 0)
+            and self.stride & mask == 0
+        ):
             # This operation doesn't affect the stride. Stride should be 0 then.
 
             bound = self.lower_bound & mask
